@@ -5,6 +5,7 @@ CONSTANTS
   Value = 3
   F2Quirk = FALSE
   KVDupQuirk = FALSE
+  Lossy = {}
   Descs = {}
   Reasons = {}
 INVARIANTS CNoOverpay
